@@ -53,6 +53,13 @@ PROPS["C05"] = dict(engine="E6", level="exploration",
    level_text="Seeded exploration of (tree shape x subscription time x schedule perturbation); oracle per leaf: received sequence is the contiguous, duplicate-free suffix of the published sequence starting no later than the first event whose publication began after Subscribe returned, with object identity; cache clause: Cache().Get right after each received event never returns an older version.",
    design_ref="DESIGN.md 5.5", technique="runtime monitoring: unique-id event log at every leaf vs the published sequence (exactly-once/ordering checker), race detector on")
 
+PROPS["C06"] = dict(engine="E7", level="exploration",
+   rule="one case = seeded scenario: parent is the root kit (engine-driven cache+publisher, readiness at a random step) or a real controller over the fake server; a tree of 3-13 nodes to depth 3 mixing SubscribeWithFilter / SubscribeForFilter / CloneWithFilter / CloneForFilter / plain Subscribe below filtered clones; 60-180 steps of parent mutations (label flips in and out of the filters, deletes) interleaved WITHOUT barriers with Refilter calls on random nodes (12-member family incl. FN twins, rebuilt-equal filters, back to the current filter, before parent readiness), perturbation at the filtered subscription's log points and inside Accept; a quiescence barrier about every 18 in-flight events. distinct = distinct scenario descriptor; non-trivial = at least one ready filtered node was compared with its parent.",
+   assumptions=["one Refilter caller per node, so 'most recently set filter' is well defined", "mirrors are only judged in runs without a logged buffer overrun"],
+   floors={"any": {"filtered-node-checks": 3000, "filtered-node-checks-nonempty": 800, "mirror-checks": 2000, "refilters": 3000}},
+   level_text="Seeded exploration of (parent history x Refilter sequence x tree x schedule perturbation) with an exact oracle at every quiescence barrier: cache(n) == filter_n(cache(parent(n))) with identical versions for every ready filtered node (conjunction along clone chains follows level by level) and mirror-of-own-events == own cache for every event-bearing node.",
+   design_ref="DESIGN.md 5.6", technique="runtime monitoring: snapshot comparison at synctest quiescence barriers against the reference filter applied to the parent's cache; event-replay mirrors; race detector on")
+
 ENGINES = {
  "E1": dict(path="harness/engines/e01_cache_test.go", kind="direct drive of the cache actor vs reference model R-cache; exhaustive small universe + random walks"),
  "E4": dict(path="harness/engines/e04_converge_test.go", kind="real controller over fault-injecting fake API server; convergence oracles at virtual-time quiescence"),
@@ -60,5 +67,6 @@ ENGINES = {
  "E15": dict(path="harness/engines/e15_failstop_test.go", kind="enumerated list failures at the k-th list with a subscriber tree attached; watch failures via E5 cases"),
  "E14": dict(path="harness/engines/e14_cadence_test.go", kind="lister alone and real controller over the (period, latency, consumption) grid in virtual time"),
  "E6": dict(path="harness/engines/e06_pubsub_test.go", kind="root kit + Subscribe/Clone trees; per-leaf sequence checker"),
+ "E7": dict(path="harness/engines/e07_filtered_test.go", kind="filtered subscription/clone trees over root kit or real controller; snapshot oracle at barriers"),
 }
 NA = {}
